@@ -79,7 +79,7 @@ func c17Run(b *core.B) {
 	r := b.Rng(1)
 	n := 40000
 	if b.Tier == core.Thorough {
-		n = 1000000
+		n = 3000000
 	}
 	for i := 0; i < n/b.NBatches; i++ {
 		prog := genProgram(r, 2, func(g *pGen) {
